@@ -62,7 +62,26 @@ func (vc *VC) evalMulti(st *State, e ast.Expr) []Term {
 			if vc.isTokenChan(x.X) {
 				return []Term{vc.tokenRecv(st, x.X, x)}
 			}
-			vc.fail(e, "channel receive outside chanmodel")
+			if vc.isOpaqueRecvSource(x.X) {
+				vc.fail(e, "blocking receive from a signal channel in expression position")
+			}
+			// a blocking receive in expression position: the join of the two outcomes of the sequential channel
+			// model (an element is available / closed and drained); blocking forever has no continuation
+			{
+				ch := vc.evalExpr(st, x.X)
+				ci := vc.chanInfo(ch.T)
+				buf := vc.chanBuf(st, ci, ch.S)
+				head := vc.chanHead(st, ch.S)
+				ln := vc.sliceLen(buf)
+				avail := and("(<= 0 "+head+")", "(< "+head+" "+ln+")")
+				st.assume(and(not(eq(ch.S, "0")), or(avail, and("(>= "+head+" "+ln+")", vc.chanClosed(st, ch.S)))))
+				v := vc.mk("(ite "+avail+" "+sel(vc.sliceArr(buf), head)+" "+vc.u.Zero(ci.E).S+")", ci.E)
+				st.assume(vc.u.WF(v.S, ci.E, st.alloc))
+				hh := vc.heapGet(st, "Chh", "(Array Int Int)", nil)
+				st.heap["Chh"] = Term{S: store(hh.S, ch.S, "(ite "+avail+" (+ "+head+" 1) "+head+")"), Sort: "(Array Int Int)"}
+				vc.note("assumed: sequential channel model for a blocking receive (an element is available or the channel is closed and drained)")
+				return []Term{v}
+			}
 		}
 	case *ast.BinaryExpr:
 		return []Term{vc.evalBinary(st, x)}
